@@ -2,7 +2,7 @@ SPECIFICATION Spec
 CONSTANTS
   ConfSet <- AllConfs
   Durs = {0, 1, 2, 4}
-  Delays = {1, 2}
+  Delays = {0, 1, 2}
   Horizon = 13
   MaxChanges = 2
   MaxFails = 2
